@@ -177,6 +177,28 @@ NOTES.update({
  "C19-8": ("missed at first", "nilpotent (strictly triangular) inputs and the documented options res_tol in {1e-10, None, 1e-6} x block_purify in {True, False} for the complex-adjoint variant"),
  "C20-8": ("caught", ""),
 })
+NOTES.update({
+ "C01-9": ("missed at first", "SparseQuaternionMatrix containers whose components arrive in every scipy storage form (gen.sparse_storage_forms: raw CSR with duplicate / cancelling duplicate entries, unsorted indices, stored zeros, COO with repeated coordinates, DIA with junk padding, CSC / LIL / DOK / BSR, mixed per component) for norm, ^H and the products; same forms for the C15 Frobenius entry points"),
+ "C02-9": ("caught", ""),
+ "C03-9": ("caught by thorough only", "tolerance TUNED per run from the spectral model so that it lies between ||XAX-X|| and ||AXA-A|| of one iterate (s_min in {3,5,8}); fixed tolerances almost never fall into that window for the cubically convergent solver"),
+ "C04-9": ("caught by thorough only", "Jordan-block classes (repeated non-real quaternion diagonal, upper and lower) with the right-hand side that leaves an eigenvector as first-cycle residual: an almost invariant Krylov space at an inner Arnoldi step of the last cycle"),
+ "C05-9": ("caught", ""),
+ "C06-9": ("missed at first (masked twice: by the rank_deficient tag of F-C06-b and by the graded tag of F-C06-d computed from a numerically singular leading block)", "class dependent_last_column (tall/square, well-conditioned leading n-1 columns from the generator, last column a copy / multiple / sum; small integers mostly): carries no rank tag and no graded tag because the routine is provably and observably (36000 probes) correct there; 4000 cases in quick since the exact cancellation needs about 1 input in 100"),
+ "C07-9": ("caught", ""),
+ "C08-9": ("caught", ""),
+ "C09-9": ("caught", ""),
+ "C10-9": ("missed at first", "already-Hessenberg inputs whose sub-diagonal entries lie along ONE axis each (w / i / j / k all visited), one single sub-diagonal entry on a triangular matrix, and tiny (1e-5..1e-7) single-axis sub-diagonals"),
+ "C11-9": ("caught", ""),
+ "C12-9": ("missed at first", "exact column structure at NON-trailing positions (right multiple, sum of two, zero column) with R + oversample >= n and n_iter in {0, 1}; spectrum recomputed by the oracle"),
+ "C13-9": ("caught (one run only)", "hybrid test sketch captured at the numpy generator boundary so that the last reported proxy is recomputed exactly; configurations that converge INSIDE a cycle (T >= 10, wide blocks), with a must-reach counter"),
+ "C14-9": ("caught", ""),
+ "C15-9": ("caught", "all scipy storage forms for normQsparse and matrix_norm on containers"),
+ "C16-9": ("caught", ""),
+ "C17-9": ("caught", ""),
+ "C18-9": ("missed at first", "images whose three colour channels live on different scales (one 8-bit style, one small, one that alone looks normalized) and images with a single pixel outside the normalized window: the default quat_to_rgb must return them unchanged"),
+ "C19-9": ("caught", ""),
+ "C20-9": ("caught", ""),
+})
 for d in sorted(glob.glob(os.path.join(HERE, "seeded", "C*"))):
     pid = os.path.basename(d)[:3]
     agent = {}
